@@ -10,7 +10,7 @@ from ..core import AnalysisError, Ctx, norm
 from ..grammar import Star, seq_str
 
 META = {
-    "explanation": "An abstract transformer: every callback of MapfileTransformer is evaluated by PAI on every child-class sequence the *shaped grammar* can deliver (tree shapes inferred from the compiled grammar: filtered tokens, inlined rules, ?-rules), bottom-up, with tokens carrying abstract text per terminal kind. Decided: every node label has a callback or is never materialised (T1); no callback fails on a shape the grammar lists for vocabulary the schemas know (T2); the documented conversions - int/float/bool typing, hex colours lower-cased and unquoted, quoted strings losing exactly their outer quotes, keyword names and METADATA/VALIDATION/VALUES/CONNECTIONOPTIONS/CONFIG keys lower-cased (T3); composite() storage discipline evaluated on a synthetic LAYER body: __type__, source order, plural lists vs singleton dicts, repeated keys as lists, last value wins, POINTS nesting, PROJECTION list (T4); every value token of a multi-valued attribute reaches the stored value in order (T5).",
+    "explanation": "An abstract transformer: every callback of MapfileTransformer is evaluated by PAI on every child-class sequence the *shaped grammar* can deliver (tree shapes inferred from the compiled grammar: filtered tokens, inlined rules, ?-rules), bottom-up, with tokens carrying abstract text per terminal kind. Decided: every node label has a callback - a def, a class-body alias of a module function, or a closure made by a module-level factory called with literals, which is closure-converted into a method - or is never materialised (T1); no callback fails on a shape the grammar lists for vocabulary the schemas know (T2); the documented conversions - int/float/bool typing, hex colours lower-cased and unquoted, quoted strings losing exactly their outer quotes, keyword names and METADATA/VALIDATION/VALUES/CONNECTIONOPTIONS/CONFIG keys lower-cased (T3); composite() storage discipline evaluated on a synthetic LAYER body: __type__, source order, plural lists vs singleton dicts, repeated keys as lists, last value wins, POINTS nesting, PROJECTION list (T4); every value token of a multi-valued attribute reaches the stored value in order (T5).",
     "level_text": "For the finite set of (callback, child-class sequence) pairs the grammar admits, the abstract result is compared with the contract; each verdict holds for all token texts of the class. This covers every keyword/shape pair, not the quarter the snippets mention.",
     "level_note": "Trusted: lark builds the tree the shaped grammar predicts and calls callbacks bottom-up with the children list. Token *text* classes are derived from the terminal definitions by hand (xform.token_value). Lexer-level mis-tokenisation of particular texts is not examined.",
     "technique": "abstract interpretation of transformer callbacks over grammar-derived tree shapes (typed child sequences)",
